@@ -337,7 +337,7 @@ func (cur *FieldMask) GetPath(desc *thrift_reflection.TypeDescriptor, path strin
 			continue
 		} else if styp == pathTypeField {
 			// get struct descriptor
-			st, err := desc.GetStructDescriptor()
+			st, err := structLikeDesc(desc)
 			if err != nil {
 				return nil, false
 			}
